@@ -99,7 +99,9 @@ func TestRefusals(t *testing.T) {
 		{"no header", func(d []byte) []byte { return d[5:] }, "header"},
 		{"no eof", func(d []byte) []byte { return d[:len(d)-6] }, "EOF"},
 		{"bad name escape", func(d []byte) []byte { return bytes.Replace(d, []byte("/A#20B"), []byte("/A#2xB"), 1) }, "hexadecimal"},
-		{"junk between objects", func(d []byte) []byte { return bytes.Replace(d, []byte("/Count 0 >>\nendobj"), []byte("/Count 0 >>\nfoobar"), 1) }, "endobj"},
+		{"junk between objects", func(d []byte) []byte {
+			return bytes.Replace(d, []byte("/Count 0 >>\nendobj"), []byte("/Count 0 >>\nfoobar"), 1)
+		}, "endobj"},
 		{"stream CR only", func(d []byte) []byte { return bytes.Replace(d, []byte("stream\nhello"), []byte("stream\rhello"), 1) }, "CR LF or LF"},
 		{"dup key", func(d []byte) []byte {
 			return bytes.Replace(d, []byte("/Kids [] /Count 0"), []byte("/Kids [] /Kids 00"), 1)
